@@ -126,6 +126,13 @@ static auto make_d() { return parser(sentence, terms(decimal, '.'), nterms(sente
     sentence(sentence, '.') >= [](std::string&& s, skip) { return s + "."; },
     sentence(sentence, decimal) >= [](std::string&& s, std::string_view d) { return s + "[" + std::string(d) + "]"; })); }
 
+// eighth grammar: a rule with 12 right-side symbols, ten of them of the same value type: every value arrives at its own position
+constexpr nterm<int> dg("dg"); constexpr nterm<std::string> row12("row12");
+static auto make_r() { return parser(row12, terms('1', '2', '3', ':', ';'), nterms(row12, dg), rules(
+    dg('1') >= val(1), dg('2') >= val(2), dg('3') >= val(3),
+    row12(dg, dg, dg, dg, dg, ':', dg, dg, dg, dg, dg, ';') >= [](int a, int b, int c, int d, int e, char colon, int f, int g, int h, int i, int j, char semi) {
+        std::string o; for (int x : {a, b, c, d, e}) o += char('0' + x); o += colon; for (int x : {f, g, h, i, j}) o += char('0' + x); o += semi; return o; })); }
+
 int main(int argc, char** argv) {
     int n = argc > 1 ? std::atoi(argv[1]) : 5;
     static const auto p = make_p();
@@ -182,6 +189,16 @@ int main(int argc, char** argv) {
             if (!thrown.empty()) { ++fails; if (first.empty()) first = "deep right recursion, " + std::to_string(len) + " tokens: parse threw " + thrown; }
             else if (!r || *r != want) { ++fails; if (first.empty()) first = "deep right recursion, " + std::to_string(len) + " tokens: the functors did not receive their own children's values (result differs from the reversed input" + (r ? " at position " + std::to_string(std::mismatch(r->begin(), r->end(), want.begin(), want.end()).first - r->begin()) : std::string(", empty")) + ")"; }
             else ++accepted;
+        }
+    }
+    {   // grammar 8: all 3^10 digit assignments of the one 12-token sentence shape, plus malformed variants
+        static const auto r = make_r();
+        for (int code = 0; code < 59049; ++code) {
+            std::string in; int c = code; for (int k = 0; k < 10; ++k) { in += char('1' + c % 3); c /= 3; if (k == 4) in += ':'; } in += ';';
+            ++cases; ++checks; auto got = r.parse(string_buffer(std::string(in)));
+            if (!got || *got != in) { ++fails; if (first.empty()) first = "grammar 8 (12-symbol rule) input '" + in + "': got " + (got ? *got : std::string("empty")) + ", every value must arrive at its own position"; }
+            else ++accepted;
+            if (code % 997 == 0) { for (std::string bad : {in.substr(1), in + "1", in.substr(0, 5) + in.substr(6), in.substr(0, 11)}) { ++cases; ++checks; if (r.parse(string_buffer(std::string(bad)))) { ++fails; if (first.empty()) first = "grammar 8: malformed input '" + bad + "' accepted"; } } }
         }
     }
     {   // grammar 7 on every input up to length 6
